@@ -50,7 +50,9 @@ CLAIMED = {
         "stays delta and the sketch equals the exact covariance (C09), and S-AdaGrad's preconditioner "
         "X = Fm + rsqrt(delta)(I - Pi) satisfies X X (delta I + C) = I in every matrix algebra given the "
         "projector relations of an orthonormal sketch (c16_sada_lossless_is_full_adagrad); at run "
-        "time the same identity is decided by a certificate. Tie: generate_init_update under x64 for "
+        "time the same identity is decided by a certificate. The OGD and AdaGrad update functions are "
+        "TRANSLATED from source on every run (C16/Ref.v + GenEq obligations) and proved to act "
+        "coordinatewise as the model steps of the closed-form theorems. Tie: generate_init_update under x64 for "
         "all six algorithms; chk_ogd / chk_ada / chk_oco / chk_full evaluated in Coq on exact dyadics.",
         "Trusted: Coq kernel + vm_compute; no axioms. rsqrt/reciprocal/sqrt/SVD are oracles (values "
         "checked against their specs to 2^-40 before use). Uniqueness of the PSD inverse square root is "
